@@ -164,3 +164,26 @@ Fixpoint serve_loop (p : bytes -> pout) (fuel : nat) (s : bytes) : option (list 
       end
   end.
 Definition serve (p : bytes -> pout) (s : bytes) := serve_loop p (S (length s)) s.
+
+(* ---- vocabulary of the C11 statements ---- *)
+(* a parser makes progress when every result other than PClose leaves strictly fewer bytes *)
+Definition progresses (p : bytes -> pout) : Prop :=
+  forall s, match fst (p s) with
+            | PDone _ rest | PClientErr _ rest => (length rest < length s)%nat
+            | PClose => True
+            end.
+
+
+(* the last step of every run closes the connection *)
+Definition closes (st : sstep) : bool :=
+  match st with SClose => true | SReq (RQuit _ _) => true | _ => false end.
+
+(* sizes are within what the header's fields can express *)
+Definition aev_bounded (a : aev) : Prop :=
+  match a with
+  | AKey k => k < 65536
+  | AData t e k n => t < 4294967296 /\ e < 256 /\ k < 65536
+  | _ => True
+  end.
+Definition aev_good (a : aev) : Prop := aev_consistent a /\ aev_bounded a.
+
